@@ -85,6 +85,10 @@ func c14Gen(r *rand.Rand, tier string) []Case {
 			c = append(c, fmt.Sprintf("slash %s %d", pick(r, kinds), 1+r.Intn(999)))
 		}
 		c = append(c, fmt.Sprintf("govburn %d", 1+r.Intn(1_000_000)))
+		// two redirected burns at one height with the distribution module changing the community pool in between
+		m1, m2 := 1+r.Intn(3), 1+r.Intn(3)
+		c = append(c, fmt.Sprintf("fund %d 5000", m1), fmt.Sprintf("burn %d %d ?", m1, 1+r.Intn(2000)), fmt.Sprintf("fundpool %d", 1+r.Intn(100000)),
+			fmt.Sprintf("fund %d 5000", m2), fmt.Sprintf("burn %d %d ?", m2, 1+r.Intn(2000)))
 		// a redirected burn of several denominations at once (deposits of a vetoed proposal in two denominations)
 		c = append(c, fmt.Sprintf("burn2 %d %d %d", 1+r.Intn(3), 1+r.Intn(1_000_000), 1+r.Intn(1_000_000)))
 		out = append(out, c)
@@ -182,6 +186,21 @@ func c14Exec(c Case) (outs []string, fails []Failure, tags []string) {
 						fails = append(fails, Failure{Signature: "C14:plain-burn-changed-meaning", What: fmt.Sprintf("burn of %s by %s: supply −%s, community pool +%s", amt, c14Mods[m], sub(pre.sup, post.sup), sub(post.pool, pre.pool)), Case: c[:i+1]})
 					}
 				}
+			case "fundpool":
+				// the distribution module's own write to the fee pool (MsgFundCommunityPool)
+				coins := sdk.NewCoins(sdk.NewCoin(denom, sdkmath.NewIntFromBigInt(mustBig(f[1]))))
+				who := kr.GetAccAddr(2)
+				if err := app.BankKeeper.MintCoins(ctx, coinomicstypes.ModuleName, coins); err != nil {
+					panic(err)
+				}
+				if err := app.BankKeeper.SendCoinsFromModuleToAccount(ctx, coinomicstypes.ModuleName, who, coins); err != nil {
+					panic(err)
+				}
+				if err := app.DistrKeeper.FundCommunityPool(ctx, coins, who); err != nil {
+					panic(err)
+				}
+				tags = append(tags, "community-pool-funded-between-burns")
+				out = "ok"
 			case "burn2":
 				out = "skip"
 				m := vmIdx(f[1])
